@@ -220,6 +220,117 @@ async fn run_case(c: &Case) -> Vec<(String, String)> {
     viol
 }
 
+// ------------------------------------------------------------------ E4: accept() fails once (descriptor exhaustion)
+
+/// Child process `zv c17-emfile`: with the descriptor limit lowered, every descriptor is used up at the moment a
+/// client connects, so the listener's accept() fails (EMFILE) at least once; the descriptors are then freed and the
+/// socket is closed / dropped. The same expectations as in the failure-free grid must hold afterwards.
+pub fn child_emfile() -> i32 {
+    unsafe {
+        let lim = libc::rlimit { rlim_cur: 256, rlim_max: 256 };
+        if libc::setrlimit(libc::RLIMIT_NOFILE, &lim) != 0 {
+            println!("{}", json!({"finding": ["machinery/setrlimit", "cannot lower RLIMIT_NOFILE"]}));
+            return 0;
+        }
+    }
+    let rt = e4::runtime(2);
+    let mut cases = 0u64;
+    for ty in [Ty::Pull, Ty::Rep, Ty::Pub] {
+        for tr in [Tr::Ipc, Tr::Tcp4] {
+            for close in [true, false] {
+                cases += 1;
+                let viol = rt.block_on(emfile_case(ty, tr, close));
+                for (c, m) in viol {
+                    println!("{}", json!({"finding": [c, m], "type": ty.name(), "transport": tr.name(), "action": if close { "close" } else { "drop" }}));
+                }
+            }
+        }
+    }
+    println!("{}", json!({"cases": cases}));
+    e4::cleanup_ipc_dir();
+    0
+}
+
+async fn emfile_case(ty: Ty, tr: Tr, close: bool) -> Vec<(String, String)> {
+    let mut viol: Vec<(String, String)> = Vec::new();
+    let what = format!("{} over {}: accept() fails for lack of descriptors while a client connects, descriptors are freed, then {}", ty.name(), tr.name(), if close { "close()" } else { "drop" });
+    let mut sock = AnySocket::new(ty, None);
+    let mut monitor = sock.monitor();
+    let ep = match sock.bind(&e4::bind_spec(tr)).await {
+        Ok(e) => e,
+        Err(e) => return vec![("machinery/bind-failed".into(), format!("{}: {}", what, e))],
+    };
+    // use up every descriptor, then free exactly the one the client's own end needs
+    let mut hog: Vec<std::fs::File> = Vec::new();
+    while let Ok(f) = std::fs::File::open("/dev/null") {
+        hog.push(f);
+        if hog.len() > 4096 {
+            break;
+        }
+    }
+    hog.pop();
+    let client = RawStream::connect(&ep).await;
+    // the fault has been injected once the monitor reports a failed accept
+    let t0 = std::time::Instant::now();
+    let mut injected = false;
+    while t0.elapsed() < Duration::from_secs(2) && !injected {
+        #[allow(deprecated)]
+        while let Ok(Some(ev)) = monitor.try_next() {
+            if matches!(ev, zeromq::SocketEvent::AcceptFailed(_)) {
+                injected = true;
+            }
+        }
+        tokio::time::sleep(Duration::from_millis(2)).await;
+    }
+    drop(hog);
+    drop(client);
+    if !injected {
+        // nothing to judge: the accept did not fail (e.g. the kernel queued the connection without a descriptor yet)
+        return vec![("machinery/accept-did-not-fail".into(), format!("{}: no AcceptFailed event within 2 s", what))];
+    }
+    // (whether the listener goes on accepting after a failed accept is not C17's business and is not judged;
+    // a well-behaved client is tried so that an established connection exists if it does)
+    let mut established: Option<RawStream> = None;
+    if let Ok(Ok(mut s)) = tokio::time::timeout(Duration::from_secs(1), RawStream::connect(&ep)).await {
+        if tokio::time::timeout(Duration::from_secs(1), e4::raw_handshake(&mut s, ty.peer_type(), None)).await.map(|r| r.is_ok()).unwrap_or(false) {
+            established = Some(s);
+        }
+    }
+    if close {
+        match tokio::time::timeout(e4::HORIZON, sock.close()).await {
+            Ok(_errs) => {} // errors may legitimately be reported here: the history is not failure-free
+            Err(_) => viol.push((format!("close-never-returns/{}", ty.name()), format!("{}: close() did not return within {} s", what, e4::HORIZON.as_secs()))),
+        }
+    } else {
+        drop(sock);
+    }
+    let (ok, _) = e4::await_cond_async(e4::HORIZON, || e4::refuses(&ep)).await;
+    if !ok {
+        viol.push((format!("listener-survives/{}", if close { "close" } else { "drop" }), format!("{}: {} still accepts connections {} s later", what, ep, e4::HORIZON.as_secs())));
+    }
+    if let zeromq::Endpoint::Ipc(Some(p)) = &ep {
+        let (gone, _) = e4::await_cond(e4::HORIZON, || !p.exists()).await;
+        if !gone {
+            viol.push((format!("ipc-file-left/{}", if close { "close" } else { "drop" }), format!("{}: socket file {} still exists", what, p.display())));
+        }
+    }
+    if ok {
+        let mut again = AnySocket::new(ty, None);
+        match again.bind(&ep.to_string()).await {
+            Ok(_) => {
+                let _ = again.close().await;
+            }
+            Err(e) => viol.push(("endpoint-not-free".into(), format!("{}: binding {} again failed: {}", what, ep, e))),
+        }
+    }
+    if let Some(mut s) = established {
+        if !s.wait_closed(e4::HORIZON).await {
+            viol.push((format!("peer-not-disconnected/{}/after-accept-failure", ty.name()), format!("{}: the peer established after the failed accept saw no end-of-stream within {} s", what, e4::HORIZON.as_secs())));
+        }
+    }
+    viol
+}
+
 // ------------------------------------------------------------------ E3: drop at every point
 
 #[derive(Clone, Debug)]
@@ -531,6 +642,35 @@ pub fn run(tier: Tier, replay: Option<String>) -> i32 {
             }
         }
     }
+    // ---- E4 child: accept() failing once (needs a process of its own: the descriptor limit is process-wide)
+    let mut emfile_cases = 0u64;
+    if let Ok(exe) = std::env::current_exe() {
+        match std::process::Command::new(exe).args(["c17-emfile"]).output() {
+            Ok(o) if o.status.success() => {
+                for l in String::from_utf8_lossy(&o.stdout).lines() {
+                    let Ok(v) = serde_json::from_str::<Value>(l) else { continue };
+                    if let Some(n) = v["cases"].as_u64() {
+                        emfile_cases = n;
+                        continue;
+                    }
+                    if let Some(f) = v["finding"].as_array() {
+                        let (c, m) = (f[0].as_str().unwrap_or("?"), f[1].as_str().unwrap_or(""));
+                        if c == "machinery/accept-did-not-fail" {
+                            // the fault could not be injected in this environment: that case is not judged
+                            ck.cov_add("e4_accept_failure_cases_not_injected", 1);
+                        } else if c.starts_with("machinery/") {
+                            ck.machinery_error(m.to_string());
+                        } else {
+                            ck.finding(c.to_string(), m.to_string(), json!({"engine":"E4-emfile","type":v["type"],"transport":v["transport"],"action":v["action"]}));
+                        }
+                    }
+                }
+            }
+            Ok(o) => ck.machinery_error(format!("c17-emfile child exited with {:?}", o.status)),
+            Err(e) => ck.machinery_error(format!("cannot run c17-emfile child: {}", e)),
+        }
+    }
+    ck.cov("e4_accept_failure_cases", emfile_cases);
     let n_cases = cases.len() as u64;
     // ---- E3: drop at every point
     let mut jobs = Vec::new();
@@ -598,7 +738,7 @@ pub fn run(tier: Tier, replay: Option<String>) -> i32 {
     ck.cov("e4_cases_with_findings", found.len() as u64);
     ck.cov("e4_cases_skipped_after_violations", skipped.load(Ordering::Relaxed) as u64);
     ck.cov("exhaustive", skipped.load(Ordering::Relaxed) == 0);
-    ck.cov("explanation", format!("E4 (real tokio runtime, real sockets; OS schedules NOT enumerated, every expectation is a monotone condition awaited up to {} s): the complete grid 9 socket types x {{TCP v4, TCP v6, IPC}} x 7 history prefixes {:?} (the last one - a peer that has stopped reading, with data stuck on the socket's side of its connection - for the 7 types that send) x {{close, drop}}{} = {} cases: close() returns, fresh connects are refused (immediately after close() returns), the IPC socket file is gone, the endpoint can be bound again, every established raw peer and every client parked in the handshake sees end-of-stream, close() reports no error in these failure-free histories, the runtime's alive-task count returns to its baseline. E3 (controlled executor, model checking): for each type the socket is dropped at each of {} points of a scenario with an established peer with traffic and a second peer at 3 handshake stages, under every schedule within the deviation bound from 2 policies: the drop returns (a synchronous wait on a lock owned by a suspended task of the only thread is reported as thread-blocked), every connection half is dropped and every library-spawned task has completed by quiescence.", e4::HORIZON.as_secs(), HISTS, if tier == Tier::Thorough { " x {multi-thread, current-thread} runtime" } else { "" }, n_cases, tier.pick(10, 14)));
+    ck.cov("explanation", format!("E4 (real tokio runtime, real sockets; OS schedules NOT enumerated, every expectation is a monotone condition awaited up to {} s): the complete grid 9 socket types x {{TCP v4, TCP v6, IPC}} x 7 history prefixes {:?} (the last one - a peer that has stopped reading, with data stuck on the socket's side of its connection - for the 7 types that send) x {{close, drop}}{} = {} cases: close() returns, fresh connects are refused (immediately after close() returns), the IPC socket file is gone, the endpoint can be bound again, every established raw peer and every client parked in the handshake sees end-of-stream, close() reports no error in these failure-free histories, the runtime's alive-task count returns to its baseline. In a child process with a lowered descriptor limit: PULL/REP/PUB x {{IPC, TCP v4}} x {{close, drop}} after an accept() that failed for lack of descriptors while a client connected (afterwards the same expectations). E3 (controlled executor, model checking): for each type the socket is dropped at each of {} points of a scenario with an established peer with traffic and a second peer at 3 handshake stages, under every schedule within the deviation bound from 2 policies: the drop returns (a synchronous wait on a lock owned by a suspended task of the only thread is reported as thread-blocked), every connection half is dropped and every library-spawned task has completed by quiescence.", e4::HORIZON.as_secs(), HISTS, if tier == Tier::Thorough { " x {multi-thread, current-thread} runtime" } else { "" }, n_cases, tier.pick(10, 14)));
     ck.assume("E4 does not own OS scheduling or kernel socket buffers; its oracles are insensitive to them (monotone conditions, 5 s horizon where correct code needs milliseconds)");
     ck.assume("close()'s error reporting is checked only for failure-free closes");
     ck.conclude()
